@@ -1090,10 +1090,11 @@ func coversAll(idx ssa.Value, sx, sy map[ssa.Value]bool) bool {
 // is shared by reference between the bucket cache and every histogram built from that entry
 // (histogram.buckets). A histogram therefore keeps the bounds it was created with only if that table
 // is written nowhere but where it is allocated:
-//   (a) whatever is stored into bucketStorage.hbuckets is storage allocated in the same function
-//       (make / append chain on the same local struct), never a parameter's or another entry's slice;
-//   (b) outside such construction nothing appends to, stores into, copies into or sorts a slice
-//       loaded from bucketStorage.hbuckets or histogram.buckets.
+//
+//	(a) whatever is stored into bucketStorage.hbuckets is storage allocated in the same function
+//	    (make / append chain on the same local struct), never a parameter's or another entry's slice;
+//	(b) outside such construction nothing appends to, stores into, copies into or sorts a slice
+//	    loaded from bucketStorage.hbuckets or histogram.buckets.
 func (c *Ctx) checkBoundTablePrivate(rule string) {
 	fH := c.field("", "bucketStorage", "hbuckets")
 	fB := c.field("", "histogram", "buckets")
@@ -1154,6 +1155,10 @@ func (c *Ctx) checkBoundTablePrivate(rule string) {
 			case *ssa.Call:
 				if isBuiltin(x, "append") {
 					return fresh(x.Call.Args[0], depth-1, seen)
+				}
+				// a same-package helper all of whose results are storage it allocated itself
+				if g := staticCallee(x); g != nil && g.Pkg == fn.Pkg && g.Blocks != nil && g.Signature.Results().Len() == 1 {
+					return c.returnsFreshSlice(g, 3)
 				}
 			case *ssa.UnOp:
 				if x.Op == token.MUL {
@@ -1255,5 +1260,75 @@ func (c *Ctx) checkBoundTablePrivate(rule string) {
 	if nBad == 0 {
 		c.ok(rule, "tally", token.NoPos, fmt.Sprintf("all %d stores into bucketStorage.hbuckets store storage allocated in the storing function; nothing appends to, copies into or overwrites a table loaded from a cache entry or a histogram", nStores))
 	}
-	c.floor(rule, nStores, 2)
+	c.floor(rule, nStores, 1)
+}
+
+// returnsFreshSlice: every result of g is a slice allocated in g (make / append chain / literal),
+// possibly through helpers of the same kind.
+func (c *Ctx) returnsFreshSlice(g *ssa.Function, depth int) bool {
+	if depth == 0 {
+		return false
+	}
+	rets := returnsOf(g)
+	if len(rets) == 0 {
+		return false
+	}
+	var fresh func(v ssa.Value, d int, seen map[ssa.Value]bool) bool
+	fresh = func(v ssa.Value, d int, seen map[ssa.Value]bool) bool {
+		if d <= 0 {
+			return false
+		}
+		if seen[v] {
+			return true
+		}
+		seen[v] = true
+		switch x := v.(type) {
+		case *ssa.MakeSlice:
+			return true
+		case *ssa.Const:
+			return x.IsNil()
+		case *ssa.Slice:
+			if al, ok := x.X.(*ssa.Alloc); ok && al.Parent() == g {
+				return true
+			}
+			return fresh(x.X, d-1, seen)
+		case *ssa.ChangeType:
+			return fresh(x.X, d-1, seen)
+		case *ssa.Phi:
+			for _, e := range x.Edges {
+				if !fresh(e, d-1, seen) {
+					return false
+				}
+			}
+			return true
+		case *ssa.Call:
+			if isBuiltin(x, "append") {
+				return fresh(x.Call.Args[0], d-1, seen)
+			}
+			if h := staticCallee(x); h != nil && h.Pkg == g.Pkg && h.Blocks != nil && h.Signature.Results().Len() == 1 {
+				return c.returnsFreshSlice(h, depth-1)
+			}
+		case *ssa.UnOp:
+			if x.Op == token.MUL {
+				if s := spilled(x.X); s != nil {
+					return fresh(s, d-1, seen)
+				}
+				if al, ok := x.X.(*ssa.Alloc); ok && al.Parent() == g && al.Referrers() != nil {
+					for _, r := range *al.Referrers() {
+						if st, isSt := r.(*ssa.Store); isSt && st.Addr == ssa.Value(al) && !fresh(st.Val, d-1, seen) {
+							return false
+						}
+					}
+					return true
+				}
+			}
+		}
+		return false
+	}
+	for _, r := range rets {
+		if len(r.Results) != 1 || !fresh(r.Results[0], 10, map[ssa.Value]bool{}) {
+			return false
+		}
+	}
+	return true
 }
